@@ -254,6 +254,56 @@ Qed.
 Lemma state_guards_conservative : state_guards_conservative_stmt.
 Proof. vm_compute. repeat split; reflexivity. Qed.
 
+(* every site of the state-count composition raises the same documented text *)
+Lemma pager_add_refuse : forall w adds len r l, pager_add w adds len = (Refuse r, l) -> r = RPager.
+Proof.
+  intros w. induction adds as [|k IH]; intros len r l H; simpl in H.
+  - discriminate.
+  - destruct (max_value w <=? len).
+    + injection H as H _. symmetry. exact H.
+    + exact (IH _ _ _ H).
+Qed.
+
+Lemma state_guards_message : forall w pre post r,
+  state_guards w pre post = Refuse r -> message_of r = MStategraph.
+Proof.
+  intros w pre post r. unfold state_guards.
+  destruct (pager_add w (N.to_nat (pre - 1)) 1) as [v l] eqn:Ep.
+  destruct v as [|r0].
+  - destruct (max_value w <? post); [intros H; injection H as <-; reflexivity|].
+    destruct (negb (post <? max_value w)); [intros H; injection H as <-; reflexivity|].
+    destruct (negb (narrow w post <? max_value w - 1)); [intros H; injection H as <-; reflexivity|].
+    discriminate.
+  - intros H. injection H as <-. rewrite (pager_add_refuse _ _ _ _ _ Ep). reflexivity.
+Qed.
+
+Lemma state_guards_refused_general : forall w pre post,
+  refused_with (state_guards w pre post) = Some MStategraph <->
+  (max_value w < pre \/ max_value w - 1 <= post).
+Proof.
+  intros w pre post. pose proof (state_guards_exact w pre post) as Hx.
+  destruct (state_guards w pre post) as [|r] eqn:E; simpl.
+  - split; [discriminate|]. intros H. exfalso.
+    assert (Hp : pre <= max_value w /\ post + 2 <= max_value w) by (apply Hx; reflexivity). lia.
+  - rewrite (state_guards_message _ _ _ _ E). split; [|reflexivity]. intros _.
+    destruct (N.lt_ge_cases (max_value w) pre) as [H|H]; [left; exact H|].
+    destruct (N.le_gt_cases (max_value w - 1) post) as [H'|H']; [right; exact H'|].
+    exfalso. assert (Hp : Refuse r = Pass) by (apply Hx; split; lia). discriminate.
+Qed.
+
+Lemma state_count_refused_iff : state_count_refused_iff_stmt.
+Proof.
+  split; [|split].
+  - intros w n. rewrite state_guards_refused_general. lia.
+  - exact state_guards_refused_general.
+  - intros w pre post. destruct (state_guards w pre post) as [|r] eqn:E; simpl.
+    + left. reflexivity.
+    + right. rewrite (state_guards_message _ _ _ _ E). reflexivity.
+Qed.
+
+Lemma state_count_boundary : state_count_boundary_stmt.
+Proof. vm_compute. repeat split; reflexivity. Qed.
+
 Lemma pow2_le_mono : forall a b, a <= b -> 2 ^ a <= 2 ^ b.
 Proof. intros a b H. apply N.pow_le_mono_r; [discriminate|exact H]. Qed.
 
